@@ -168,6 +168,7 @@ def _check_termination_condition(model: Model, TC: RuleResult):
         names = [n.attr for n in ast.walk(e) if isinstance(n, ast.Attribute) and isinstance(n.value, ast.Name) and n.value.id == "self" and n.attr in TOLS]
         return names[0] if len(set(names)) == 1 else None
     seen_atoms = {}
+    free_atoms = {}
 
     def ev(e, st):
         if isinstance(e, ast.Constant) and isinstance(e.value, bool):
@@ -182,7 +183,12 @@ def _check_termination_condition(model: Model, TC: RuleResult):
         if isinstance(e, ast.Compare) and len(e.ops) == 1:
             l, r, op = e.left, e.comparators[0], e.ops[0]
             tl, tr = tol_of(l), tol_of(r)
-            if (tl is None) == (tr is None):
+            if tl is None and tr is None:
+                # a comparison that involves no tolerance is a free atom: it can be true or false independently of the four bounds
+                key = ast.unparse(e)
+                free_atoms.setdefault(key, e)
+                return st.get(("free", key), False)
+            if tl is not None and tr is not None:
                 raise AnalysisError("C03-TC: comparison `%s` does not bound a norm by exactly one tolerance" % ast.unparse(e))
             tol = tr or tl
             seen_atoms[tol] = e
@@ -211,13 +217,21 @@ def _check_termination_condition(model: Model, TC: RuleResult):
         return None
     bad = None
     n = 0
+    # first pass discovers the free atoms (tolerance-free comparisons); then every assignment of them is enumerated as well
     for combo in itertools.product(("holds", "fails", "unordered"), repeat=4):
-        st = dict(zip(TOLS, combo))
-        n += 1
-        r = run(chk.node.body, st)
-        want = all(c == "holds" for c in combo)
-        if bool(r) != want and bad is None:
-            bad = (st, r)
+        run(chk.node.body, dict(zip(TOLS, combo)))
+    frees = sorted(free_atoms)
+    if len(frees) > 4:
+        raise AnalysisError("C03-TC: too many tolerance-free comparisons in TerminationCondition.check: %s" % frees)
+    for combo in itertools.product(("holds", "fails", "unordered"), repeat=4):
+        for fv in itertools.product((False, True), repeat=len(frees)):
+            st = dict(zip(TOLS, combo))
+            st.update({("free", k): v for k, v in zip(frees, fv)})
+            n += 1
+            r = run(chk.node.body, st)
+            want = all(c == "holds" for c in combo)
+            if bool(r) != want and bad is None:
+                bad = ({(k if isinstance(k, str) else "`%s`" % k[1]): v for k, v in st.items()}, r)
     missing = [t for t in TOLS if t not in seen_atoms]
     for tol in TOLS:
         if tol in missing:
